@@ -7,10 +7,51 @@ self-loops and cycle-closing edges (reachability closure), rejected calls change
 get_position/at_position consistent, invariant 'no directed cycle while wrapped' in every state."""
 from props.mgcommon import *
 
+def pk_stage(run, th, seed):
+    """AcyclicPK.tla: the order-maintenance algorithm as coded, model-checked (valid order, injective positions, no
+    assertion can fire, refusal iff self-loop or cycle, refusal changes nothing) for both inner graph types; then one
+    history per distinct model state is replayed on the real wrapper with every call forked from it."""
+    d = os.path.join(SPEC, "graph")
+    base = open(os.path.join(d, "MCAcyclicPK.cfg")).read()
+    scripts = []
+    for compact in (False, True):
+        n, ops = (4, 14)
+        q = base.replace("MaxN = 4", "MaxN = %d" % n).replace("MaxOps = 7", "MaxOps = %d" % ops).replace("Compact = FALSE", "Compact = %s" % ("TRUE" if compact else "FALSE"))
+        open(os.path.join(d, "out_MCAcyclicPK.cfg"), "w").write(q)
+        run.add_mc("AcyclicPK %s N=%d" % ("DiGraph" if compact else "StableDiGraph", n), tlc("graph/AcyclicPK", "out_MCAcyclicPK.cfg", workers=8, timeout=1800, tag="c14pk"))
+        open(os.path.join(d, "out_MCAcyclicPK.cfg"), "w").write(q.replace("INVARIANT Inv", "INVARIANT Inv Export").replace("PROPERTY Verdict\n", ""))
+        r = tlc("graph/AcyclicPK", "out_MCAcyclicPK.cfg", workers=1, timeout=1800, tag="c14pkx")
+        run.add_mc("AcyclicPK export", r)
+        scripts += [parse_printed_json(l, "PATH")[1] for l in r.printed("PATH")]
+    if th:
+        # the five-node model (about 400 k states): design check only, no replay
+        q = base.replace("MaxN = 4", "MaxN = 5").replace("MaxOps = 7", "MaxOps = 18")
+        open(os.path.join(d, "out_MCAcyclicPK.cfg"), "w").write(q)
+        run.add_mc("AcyclicPK StableDiGraph N=5", tlc("graph/AcyclicPK", "out_MCAcyclicPK.cfg", workers=12, timeout=3000, tag="c14pk5"))
+    os.remove(os.path.join(d, "out_MCAcyclicPK.cfg"))
+    if not scripts:
+        raise ToolError("AcyclicPK export printed no histories")
+    stride = 3 if th else 24
+    sp = os.path.join(OUT, "traces", "C14-pk-scripts.ndjson")
+    write_ndjson(sp, scripts)
+    tp = os.path.join(OUT, "traces", "C14-pk.ndjson")
+    evs = vh_trace(["mg-accover", "--in", sp, "--stride", stride, "--offset", seed % stride, "--seed", seed], tp, timeout=1200)
+    os.remove(sp)
+    saves = [e for e in evs if e.get("op") == "save"]
+    run.extra["pk_model_states"] = len(scripts)
+    run.extra["pk_states_replayed"] = len(saves)
+    run.extra["pk_forked_calls"] = len([e for e in evs if e.get("op") == "restore"])
+    run.extra["pk_order_agreement"] = "%d of %d replayed states have exactly the order AcyclicPK.tla predicts (informational: C14 accepts any valid order)" % (len([e for e in saves if e.get("pk_agree")]), len(saves))
+    log("[pk] " + run.extra["pk_order_agreement"])
+    run.sample({"pk_history": scripts[len(scripts) // 2]})
+    validate(run, "AcyclicPK state cover + fan-out (stride %d)" % stride, evs, "C14", chunk=6000, parallel=12)
+
+
 def run(tier, seed):
     run = Run("C14", tier, seed)
     build_harness()
     th = tier == "thorough"
+    pk_stage(run, th, seed)
     for rel in ([False, True] if th else [False]):
         if rel:
             build_harness(release=True)
